@@ -33,10 +33,11 @@ P = {
         {'name': 'registries', 'n': {'quick': 160, 'thorough': 3000}, 'batch': 2000},
         {'name': 'upgrade175', 'n': {'quick': 0, 'thorough': 3}, 'timeout': 3000},
     ],
-    'coq_header': 'From HV Require Import App.DeterminismModel.\nFrom Coq Require Import ZArith NArith List.\nImport ListNotations.',
+    'coq_header': 'From HV Require Import Feemarket.BaseFeeModel App.FeeReplicaModel App.DeterminismModel App.ReplicaCaseModel.\n'
+                  'From Coq Require Import ZArith NArith List.\nImport ListNotations.',
     'lists': {'sites': {'type': 'N', 'check': 'site_mismatches', 'shard': 400},
               'regs': {'type': 'rcase', 'check': 'rmismatches', 'shard': 100},
-              'bh': {'type': 'bh_case', 'check': 'bh_mismatches', 'shard': 40}},
+              'rep': {'type': 'rep_case', 'check': 'rep_mismatches', 'shard': 40}},
     'search': {'rounds': 2, 'n': 40},
     'rule': 'replicas: a case is one block history (quick 15 blocks / 2 replicas, thorough 40 blocks / 3 replicas; every 4th history '
             'adds a replica in a separate OS process whose environment differs: TZ 14 h ahead, Turkish locale, no home directory; replica 1 runs with the access_list EVM tracer option) generated as for C15 (really signed Cosmos and Ethereum transactions incl. '
